@@ -760,6 +760,17 @@ func stmtShape(st string, qo, qc byte) string {
 // reference position, is qualified by exactly want ("" = no schema component); with
 // own = true (no qualifier requested) by the schema the object lives in.
 func checkChains(w *out.W, id, head, where, st string, chs []chain, cfg planCfg, want string, own bool) {
+	// round 3: a chain in an object position must name an object of the change set (a
+	// qualifier glued into the name, or a mangled name, is not a reference to it)
+	for k, cl := range refPositions(st, chs, cfg.pg) {
+		found := false
+		for _, p := range chs[k].parts {
+			found = found || classOfName(p) == cl
+		}
+		if !found {
+			w.Violation(id, "reference-unrecognised-"+cl, fmt.Sprintf("%s: %s statement: the chain %q stands where a %s is referenced and names no %s of the change set: %s", head, where, chs[k].parts, cl, cl, oneLine(st)))
+		}
+	}
 	for _, c := range chs {
 		for k, p := range c.parts {
 			cl := classOfName(p)
@@ -803,6 +814,55 @@ func checkChains(w *out.W, id, head, where, st string, chs []chain, cfg planCfg,
 			break
 		}
 	}
+}
+
+// refPositions: the chains of the statement that stand in an object-reference position, by
+// index, with the class of object referenced there (statement heads of the two planners).
+func refPositions(st string, chs []chain, pg bool) map[int]string {
+	pos := map[int]string{}
+	if len(chs) == 0 {
+		return pos
+	}
+	h := stmtHead(st)
+	switch h {
+	case "CREATE_TABLE", "DROP_TABLE", "ALTER_TABLE", "RENAME_TABLE":
+		pos[0] = "table"
+	case "ALTER_INDEX":
+		pos[0] = "index"
+	case "DROP_INDEX":
+		if pg {
+			pos[0] = "index"
+		}
+	case "CREATE_TYPE", "DROP_TYPE", "ALTER_TYPE":
+		pos[0] = "type"
+	case "CREATE_SEQUENCE", "DROP_SEQUENCE":
+		pos[0] = "seq"
+	case "COMMENT_ON":
+		switch chs[0].prev[2] {
+		case "TABLE", "COLUMN":
+			pos[0] = "table"
+		case "INDEX":
+			pos[0] = "index"
+		case "TYPE":
+			pos[0] = "type"
+		}
+	}
+	for k, c := range chs {
+		p := c.prev
+		switch {
+		case p[2] == "REFERENCES":
+			pos[k] = "table"
+		case p[2] == "TO" && p[1] == "RENAME" && (h == "ALTER_TABLE" || h == "RENAME_TABLE"):
+			pos[k] = "table"
+		case p[2] == "TO" && p[1] == "<id>" && h == "RENAME_TABLE":
+			pos[k] = "table"
+		case p[2] == "ON" && (h == "CREATE_INDEX" || h == "DROP_INDEX"):
+			pos[k] = "table"
+		case p[2] == "BY" && p[1] == "OWNED":
+			pos[k] = "table"
+		}
+	}
+	return pos
 }
 
 // ---- generator
